@@ -175,6 +175,9 @@ def hyp_search(ctx, strategy, check, max_examples, label="main", shrink_calls=40
     from hypothesis import HealthCheck, Phase, given, settings
 
     holder = {"post": 0}
+    if os.environ.get("PV_SHRINK_CALLS"):
+        # detection sweeps over many seeded changes only need the verdict, not a minimal reproduction
+        shrink_calls = int(os.environ["PV_SHRINK_CALLS"])
     if case_cap:
         check = with_watchdog(check, case_cap)
     failed = {}  # sha(case) -> Violation: outcomes stay consistent, so Hypothesis never sees flakiness
